@@ -1086,10 +1086,27 @@ fn run_engine(cli: &Cli, report: &Report) {
 fn main() {
     let cli = mc_core::parse_cli();
     mc_core::quiet_panics();
-    if cli.property != "C14" {
+    if cli.property != "C14" && cli.property != "C13" {
         mc_core::machinery_error(&format!("mc-host does not serve property {}", cli.property));
     }
     let report = Report::new(&cli);
+    if cli.property == "C13" {
+        // the chain-level part of C13 (embedded in mc-wasm's check): executions interrupted at
+        // invoke / upgrade, answered and resumed, against the reference model
+        let mem0 = initial_memory(cli.seed);
+        let mut atoms: Vec<Call> = vec![];
+        for f in ALL {
+            if matches!(f, F::VerifyEd25519 | F::VerifySecp256k1) {
+                continue;
+            }
+            for args in arg_lists(f, false) {
+                atoms.push(Call { f, args });
+            }
+        }
+        resume::run_resume(&report, cli.tier, &mem0, &atoms);
+        report.set_technique("interrupts of v1 receive executions answered and resumed through resume_receive: [carried-over effect] interrupt answer [follow-up call], one and two interrupts, limits across sections, nesting programs with interrupts - each compared with the reference model of the host interface (what an uninterrupted execution with the same answers does)");
+        report.finish(true, json!({"part": "chain-level resume"}));
+    }
     run_engine(&cli, &report);
     let n = report.evaluations.load(std::sync::atomic::Ordering::Relaxed);
     report.state(n);
